@@ -53,7 +53,7 @@ NAME_THRESHOLD = int(_os.environ.get('VF_NAME_T', '48'))
 
 
 def compact(g: "B") -> "B":
-    if namer is not None and g.sz > NAME_THRESHOLD:
+    if namer is not None and g.sz > NAME_THRESHOLD and size(g, NAME_THRESHOLD + 1) > NAME_THRESHOLD:
         return namer(g)
     return g
 
